@@ -42,7 +42,12 @@ def getitem(I, obj, idx):
         k = dict_find(I, obj, idx)
         if k is MISSING:
             I.raise_builtin("KeyError", idx)
-        return obj.d[k]
+        v = obj.d[k]
+        if isinstance(v, Maybe):
+            if not I.prover.fork(v.cond):
+                I.raise_builtin("KeyError", idx)
+            return v.value
+        return v
     if isinstance(obj, (tuple, IList)):
         items = obj if isinstance(obj, tuple) else obj.items
         if isinstance(idx, slice):
@@ -117,6 +122,17 @@ def setitem(I, obj, idx, v):
     if isinstance(obj, IDict):
         k = dict_find(I, obj, idx)
         I.log_write(("dict", obj))
+        if getattr(I, "guards", None):
+            g = S(z3.And(*I.guards))
+            if k is not MISSING:
+                old = obj.d[k]
+                if isinstance(old, Maybe) or isinstance(v, Maybe) or not (
+                        isinstance(old, (Sym, str, int, bool, type(None))) and isinstance(v, (Sym, str, int, bool, type(None)))):
+                    raise OutOfReach("guarded overwrite of a structured dict entry")
+                obj.d[k] = Sym(z3.If(g, I.to_term(v), I.to_term(old)))
+            else:
+                obj.d[idx] = Maybe(g, v)
+            return
         if k is MISSING:
             obj.d[idx] = v
         else:
@@ -370,6 +386,22 @@ def slist_method(I, l, name):
 
 
 def sdict_method(I, d, name):
+    if name == "setdefault":
+        def setdefault(I_, a, k):
+            if not I_.truth(boolval(contains(I_, a[0], d))):
+                setitem(I_, d, a[0], a[1] if len(a) > 1 else None)
+            return getitem(I_, d, a[0])
+        return nat("setdefault", setdefault)
+    if name == "pop":
+        def pop(I_, a, k):
+            if not I_.truth(boolval(contains(I_, a[0], d))):
+                if len(a) > 1:
+                    return a[1]
+                I_.raise_builtin("KeyError", a[0])
+            v = getitem(I_, d, a[0])
+            delitem(I_, d, a[0])
+            return v
+        return nat("pop", pop)
     if name == "get":
         def get(I_, a, k):
             t = I_.to_term(a[0])
